@@ -276,7 +276,38 @@ pub fn c08_dest(ctx: &Ctx) -> Outcome {
                 l2.extend(copies.iter().filter(|c| matches!(c, WOp::CopyIn { k: 1, peek: true, .. })).cloned());
                 let alphabets = vec![l0, copies, l2];
                 let run = WrRun { property: "C08", e, wbits, wrapper: "", depth: 3, alphabets: &alphabets, fixpoint: false, max_states: 4_000_000, real_backends: true, check_counter: false, leaf_combos: if thorough { 4 } else { 1 } };
-                explore(&run)
+                let mut out = explore(&run);
+                // a second, narrower run: fill; then a write that CROSSES a word boundary and may leave
+                // garbage in the undefined part of the buffer (dirty fixed-width arguments where the build
+                // accepts them, code writes, unary); then a short copy; then a continuation
+                {
+                    let dirty = !cfg!(feature = "checks");
+                    let hi = |n: u8| if dirty && n < 64 { u64::MAX << n } else { 0 };
+                    let mut l1: Vec<WOp> = vec![];
+                    for n in [1u8, 3, (wbits.min(64) / 2 + 1) as u8, (wbits.min(64) - 1) as u8, 64] {
+                        l1.push(WOp::WriteBits { v: (pats[2] & mask(n)) | hi(n), n });
+                    }
+                    for (code, v) in [(crate::model::Code::Gamma, 100u64), (crate::model::Code::Delta, 100_000), (crate::model::Code::Omega, 1000), (crate::model::Code::Pi(2), 77), (crate::model::Code::Rice(3), 50), (crate::model::Code::ExpGolomb(2), 999), (crate::model::Code::Zeta(3), 12345)] {
+                        l1.push(WOp::Code { code, v });
+                    }
+                    l1.push(WOp::Unary(wbits as u64 / 2));
+                    let mut l2c: Vec<WOp> = vec![];
+                    for src in [1u8, 3] {
+                        for k in [0u16, 1, 5] {
+                            for n in [1u16, 2, 7, wbits as u16 - 1, 64] {
+                                for from in [false, true] {
+                                    l2c.push(WOp::CopyIn { src, k, peek: false, n, from });
+                                }
+                            }
+                        }
+                    }
+                    let l3: Vec<WOp> = vec![WOp::WriteBits { v: 1, n: 1 }, WOp::WriteBits { v: pats[3] & mask(9), n: 9 }, WOp::Flush, WOp::Unary(3)];
+                    let fills: Vec<WOp> = (0..wbits.min(64)).step_by(if thorough { 1 } else { 5 }).chain([wbits.min(64) - 1, wbits.min(64) - 2]).map(|n| WOp::WriteBits { v: pats[3] & mask(n as u8), n: n as u8 }).collect();
+                    let alphabets = vec![fills, l1, l2c, l3];
+                    let run = WrRun { property: "C08", e, wbits, wrapper: "", depth: 4, alphabets: &alphabets, fixpoint: false, max_states: 4_000_000, real_backends: true, check_counter: false, leaf_combos: 1 };
+                    out.merge(explore(&run));
+                }
+                out
             }));
         }
     }
@@ -297,7 +328,7 @@ pub fn c08(ctx: &Ctx) -> (CheckMeta, Outcome) {
     let meta = CheckMeta {
         property: "C08".into(),
         level: "model_checking".into(),
-        rule: "the reader x writer product is cut along the copy step. Source view: BFS to the FIXPOINT of the real reader (Buf8..Buf64, unbuffered; zero-extended, strict, Cursor backends; Count wrapper) whose alphabet contains, besides boundary reads/peeks/skips, all table and table-free code reads and seeks, copy_to/copy_from of n bits (quick: 0,1,2,W/2,W-1,W,W+1; thorough: every n in 0..=2W+2; both plus 2W-1..2W+1, 3W+2, 5W+7, 8W, 200) into a fresh writer of every word size 8..128 pre-filled with 2 (thorough 6) bit counts; the destination's whole image (prefill ++ copied bits ++ sentinel) is compared with the model and the source continues as an ordinary BFS state, so EVERY continuation of EVERY post-copy state is explored. Destination view: BFS (depth 3) over the real writer: fill level, copy-in from a fresh source reader of every kind advanced by k bits and optionally peeked (more than one word buffered), continuation writes; delivered words and final images on real backends vs the model. Long-copy grid: single copies of B words + r bits (B in 127,128,129,256,1024 (thorough: 15 values from 63 to 1025), word = source or destination word, r in 0,1,5,21,W-1) from every source kind into every destination word size, 3 destination fills, 2 source offsets, both directions, with the source's position and next bits checked. Huge copies: single copies of 2^32 and 2^32+3 bits (thorough: also 2^32-1, 2^32+64, 3*2^31+17; destination words 32/64/128) from a buffered reader over a synthetic word source into a buffered writer over a comparing sink, both directions, every destination byte, the byte count, the source position and the source's next 64 bits checked. All of these are run on the build with the optimised copy paths (the two state-space views also on a build with debug assertions and overflow checks) and on the build with --features no_copy_impls".into(),
+        rule: "the reader x writer product is cut along the copy step. Source view: BFS to the FIXPOINT of the real reader (Buf8..Buf64, unbuffered; zero-extended, strict, Cursor backends; Count wrapper) whose alphabet contains, besides boundary reads/peeks/skips, all table and table-free code reads and seeks, copy_to/copy_from of n bits (quick: 0,1,2,W/2,W-1,W,W+1; thorough: every n in 0..=2W+2; both plus 2W-1..2W+1, 3W+2, 5W+7, 8W, 200) into a fresh writer of every word size 8..128 pre-filled with 2 (thorough 6) bit counts; the destination's whole image (prefill ++ copied bits ++ sentinel) is compared with the model and the source continues as an ordinary BFS state, so EVERY continuation of EVERY post-copy state is explored. Destination view: BFS (depth 3) over the real writer: fill level, copy-in from a fresh source reader of every kind advanced by k bits and optionally peeked (more than one word buffered), continuation writes; delivered words and final images on real backends vs the model; a second run of depth 4: fill, a write that crosses a word boundary (dirty fixed-width arguments where the build accepts them, code writes, unary), a short copy-in, a continuation. Long-copy grid: single copies of B words + r bits (B in 127,128,129,256,1024 (thorough: 15 values from 63 to 1025), word = source or destination word, r in 0,1,5,21,W-1) from every source kind into every destination word size, 3 destination fills, 2 source offsets, both directions, with the source's position and next bits checked. Huge copies: single copies of 2^32 and 2^32+3 bits (thorough: also 2^32-1, 2^32+64, 3*2^31+17; destination words 32/64/128) from a buffered reader over a synthetic word source into a buffered writer over a comparing sink, both directions, every destination byte, the byte count, the source position and the source's next 64 bits checked. All of these are run on the build with the optimised copy paths (the two state-space views also on a build with debug assertions and overflow checks) and on the build with --features no_copy_impls".into(),
         assumptions: vec!["reference model = canonical layout".into()],
     };
     (meta, out)
